@@ -4,4 +4,7 @@ CONSTANTS
   CopyOnReuse = TRUE
   GuardTypedNil = TRUE
   BinMarshalerOpts = TRUE
+  ClonesCapLimited = TRUE
+  ParseErrorWins = TRUE
+  SharedSkipCounter = FALSE
 CHECK_DEADLOCK FALSE
